@@ -25,9 +25,9 @@ theorem merge_delivered (sub : Bool) (env : Env) (k : Kind) (p : Kvs) (s : Serve
     ∃ o, (step sub env k (.merge p) s).2.2 = some o ∧ Delivered p o.body ∧
       ((step sub env k (.merge p) s).1.obj = some o ∨
        ((step sub env k (.merge p) s).1.obj = none ∧ o.marked = true ∧ o.fins = [])) := by
-  rcases step_cases sub env k (.merge p) s with (⟨_, e⟩ | ⟨_, e⟩) | ⟨_, _, e⟩ | ⟨o, _, _, ha, _⟩ | ⟨o, new, _, ho, ha, e⟩
+  rcases step_cases sub env k (.merge p) s with (⟨_, e⟩ | ⟨c, hc, e⟩) | ⟨_, _, e⟩ | ⟨o, _, _, ha, _⟩ | ⟨o, new, _, ho, ha, e⟩
   · rw [e] at hcode; simp at hcode
-  · rw [e] at hcode; simp at hcode
+  · rw [e] at hcode; exact absurd hcode hc.2.1
   · rw [e] at hcode; simp at hcode
   · simp [applyPayload] at ha
   · simp only [applyPayload, Option.some.injEq] at ha
@@ -45,7 +45,7 @@ theorem merge_delivered (sub : Bool) (env : Env) (k : Kind) (p : Kvs) (s : Serve
 -- non-vacuity: a status merge through the subresource, accepted, while a foreign edit slips in
 example :
     let s : Server := ⟨5, 1, some ⟨1, 5, false, [], [("spec", obj [("x", num 0)])]⟩⟩
-    let env : Env := { slips := fun _ => some (.edit [("spec", obj [("x", num 7)])]), faults := fun _ => .none }
+    let env : Env := { slips := fun _ => [.edit [("spec", obj [("x", num 7)])], .setFins ["late"]], faults := fun _ => .none }
     (step true env .mergeStatus (.merge [("status", obj [("a", num 1)])]) s).2.1.code = 200 ∧
     wfKvs [("status", obj [("a", num 1)])] = true := by decide
 
@@ -235,7 +235,7 @@ example :
     let F : Obj := ⟨1, 5, false, [], []⟩
     finsChanged F (applyFns [.block "f"] F) = true ∧
     ((slipped Env.quiet .jsonBody ⟨5, 1, some F⟩).obj.map (·.rv)) = some 5 ∧
-    ((slipped { slips := fun _ => some (.edit [("spec", num 1)]), faults := fun _ => .none } .jsonBody ⟨5, 1, some F⟩).obj.map (·.rv))
+    ((slipped { slips := fun _ => [.edit [("spec", num 1)]], faults := fun _ => .none } .jsonBody ⟨5, 1, some F⟩).obj.map (·.rv))
       = some 6 := by decide
 
 /-- A refused JSON-patch (422, also an injected one) is the last request of the call and returns
@@ -252,10 +252,10 @@ theorem conflict_keeps_all_fns (sub : Bool) (p : Patch) (orig : Obj) (env : Env)
   rw [this]
   rfl
 
-/-- …and a remaining patch is returned only then. -/
+/-- …and a remaining patch is returned only then: the last request is a JSON-patch answered 422. -/
 theorem remaining_only_after_refusal (sub : Bool) (p : Patch) (orig : Obj) (env : Env) (s : Server)
     (f : List Fn) (b : Option Obj) (h : (patchObj sub p orig env s).outcome = .ok (some f) b) :
-    f = p.fns ∧ ∃ r, (patchObj sub p orig env s).reqs.getLast? = some r ∧ r.kind.isJson = true ∧ r.code ≠ 200 ∧ r.code ≠ 404 := by
+    f = p.fns ∧ ∃ r, (patchObj sub p orig env s).reqs.getLast? = some r ∧ r.kind.isJson = true ∧ r.code = 422 := by
   unfold patchObj at h ⊢
   rcases good_inv (good_patch sub p orig env s) with ⟨st, e, _⟩ | ⟨st, pre, r, e, h1, _, h3⟩
   · rw [e] at h; simp [finish] at h
@@ -265,120 +265,43 @@ theorem remaining_only_after_refusal (sub : Bool) (p : Patch) (orig : Obj) (env 
     unfold stopOf at h
     by_cases h404 : r.code = 404
     · simp [h404, finish] at h
-    · by_cases hj : r.kind.isJson = true
-      · simp only [h404, hj, if_false, if_true, finish, Outcome.ok.injEq, Option.some.injEq] at h
-        exact ⟨h.1.symm, r, by simp, hj, h3, h404⟩
-      · simp [h404, hj, finish] at h
+    · by_cases hj : r.code = 422 ∧ r.kind.isJson = true
+      · rw [if_neg h404, if_pos hj] at h
+        simp only [finish, Outcome.ok.injEq, Option.some.injEq] at h
+        exact ⟨h.1.symm, r, by simp, hj.2, hj.1⟩
+      · rw [if_neg h404, if_neg hj] at h
+        simp [finish] at h
 
-/-! ## idempotence, carry-forward -/
+/-! ## carry-forward: neither lost nor duplicated -/
 
-theorem block_idem (f : String) (l : List String) : blockDeletion f (blockDeletion f l) = blockDeletion f l := by
-  have h : f ∈ blockDeletion f l := (mem_block f f l).2 (Or.inl rfl)
-  generalize blockDeletion f l = l' at h ⊢
-  unfold blockDeletion
-  rw [if_pos h]
-
-theorem allow_idem (f : String) (l : List String) : allowDeletion f (allowDeletion f l) = allowDeletion f l := by
-  unfold allowDeletion
-  rw [List.filter_filter]
-  congr 1
-  funext x
-  simp
-
-/-- Block/allow touch nothing but their own finalizer: the others keep their place and order. -/
-theorem foreign_finalizers_untouched (f : String) (l : List String) :
-    (blockDeletion f l).filter (fun x => x != f) = l.filter (fun x => x != f) ∧
-    (allowDeletion f l).filter (fun x => x != f) = l.filter (fun x => x != f) := by
-  constructor
-  · unfold blockDeletion
-    split
-    · rfl
-    · simp [List.filter_append]
-  · unfold allowDeletion
-    rw [List.filter_filter]
-    congr 1
-    funext x
-    simp
-
-/-- What is carried: after a call that returned a remaining patch, `process_resource_event` keeps
-    exactly the handler-supplied fns of it, in order (the framework's own finalizer edits are dropped:
-    they are decided anew in every cycle), `_daemon/_timer` keep all of it. -/
-theorem carried_after_conflict (sub : Bool) (mem : Option (List Fn)) (fields : Kvs) (fns : List Fn)
-    (orig : Obj) (env : Env) (s : Server) (rem : Option (List Fn)) (b : Option Obj)
-    (hne : (nextPatch mem fields fns).isEmpty = false)
-    (hout : (patchObj sub (nextPatch mem fields fns) orig env s).outcome = .ok rem b) :
-    (cycle sub mem fields fns orig env s).2 = carried rem ∧
-    (daemonCycle sub mem fields fns orig env s).2 = rem ∧
-    (∀ l, carried rem = some l → l ≠ [] ∧ ∀ f, f ∈ l ↔ (∃ r, rem = some r ∧ f ∈ r) ∧ f.isFramework = false) := by
-  refine ⟨?_, ?_, ?_⟩
-  · simp [cycle, cycleOf, hne, hout, memoryAfter]
-  · simp [daemonCycle, cycleOf, hne, hout, memoryAfter]
-  · intro l hl
-    cases rem with
-    | none => simp [carried] at hl
-    | some r =>
-      simp only [carried] at hl
-      split at hl
-      · cases hl
-      · rename_i hne'
-        cases hl
-        refine ⟨by intro e; rw [e] at hne'; simp at hne', ?_⟩
-        intro f
-        simp [List.mem_filter]
-
-/-- The framework's own finalizer edits never stay in the memory of `process_resource_event`,
-    whatever happened to the call (conflict, 404, exception, success). -/
-theorem framework_fns_not_carried (sub : Bool) (mem : Option (List Fn)) (fields : Kvs) (fns : List Fn)
-    (orig : Obj) (env : Env) (s : Server)
-    (hmem : ∀ l, mem = some l → ∀ f ∈ l, f.isFramework = false) :
-    ∀ l, (cycle sub mem fields fns orig env s).2 = some l → ∀ f ∈ l, f.isFramework = false := by
-  intro l hl f hf
-  unfold cycle cycleOf at hl
-  simp only at hl
-  split at hl
-  · cases hl
-  · unfold memoryAfter at hl
-    split at hl
-    · rename_i rem _ _
-      simp only [Bool.false_eq_true, if_false] at hl
-      cases rem with
-      | none => simp [carried] at hl
-      | some r =>
-        simp only [carried] at hl
-        split at hl
-        · cases hl
-        · cases hl
-          simp [List.mem_filter] at hf
-          exact hf.2
-    · cases hl
-    · exact hmem l hl f hf
-
-/-- The carry-forward cycle. The carried (handler-supplied) fns `mem`, fed into the next cycle's patch
-    (`Patch(memory.remaining_patch, body=fresh body)`) together with whatever this cycle queues itself
-    (`newfns`: the framework's finalizer decision on the fresh state), nobody interfering: afterwards the
-    object holds exactly ONE application of these fns to the then-fresh finalizer list (or has been
-    released by it), and nothing remains in the memory — not lost, not carried any further. -/
-theorem carry_forward (sub : Bool) (mem : Option (List Fn)) (newfns : List Fn) (o : Obj) (s : Server)
-    (ho : s.obj = some o) :
-    (cycle sub mem [] newfns o Env.quiet s).2 = none ∧
-    ((∃ o', (cycle sub mem [] newfns o Env.quiet s).1.server.obj = some o' ∧ o'.uid = o.uid ∧
+/-- The carry-forward cycle, for ANY dict content of the cycle (progress, results, touch removal, …).
+    The carried (handler-supplied) fns `mem`, fed into the next cycle's patch
+    (`Patch(memory.remaining_patch, body=body)`) together with whatever this cycle queues itself (`newfns`:
+    the framework's finalizer decision on the fresh state), computed for the object the server holds,
+    nobody interfering: afterwards the object holds exactly ONE application of these fns to the then-fresh
+    finalizer list (or has been released by it), and nothing remains in the memory. (A marked object
+    without finalizers is never stored — `Server.put` removes it — hence `hns`.) -/
+theorem carry_forward (sub : Bool) (mem : Option (List Fn)) (fields : Kvs) (newfns : List Fn) (o : Obj) (s : Server)
+    (ho : s.obj = some o) (hns : ¬ (o.marked = true ∧ o.fins = [])) :
+    (cycle sub mem fields newfns o Env.quiet s).2 = none ∧
+    ((∃ o', (cycle sub mem fields newfns o Env.quiet s).1.server.obj = some o' ∧ o'.uid = o.uid ∧
         o'.fins = (applyFns (mem.getD [] ++ newfns) o).fins) ∨
-     ((cycle sub mem [] newfns o Env.quiet s).1.server.obj = none ∧ o.marked = true ∧
+     ((cycle sub mem fields newfns o Env.quiet s).1.server.obj = none ∧ o.marked = true ∧
         (applyFns (mem.getD [] ++ newfns) o).fins = [])) := by
-  generalize hfns : mem.getD [] ++ newfns = fns
-  cases fns with
-  | nil =>
-    have e : cycle sub mem [] newfns o Env.quiet s = (⟨[], s, .ok none none⟩, none) := by
-      simp [cycle, cycleOf, nextPatch, Patch.isEmpty, hfns]
-    rw [e]
+  by_cases hemp : (nextPatch mem fields newfns).isEmpty = true
+  · have e : cycle sub mem fields newfns o Env.quiet s = (⟨[], s, .ok none none⟩, none) := by
+      simp [cycle, cycleOf, hemp]
+    have hf : mem.getD [] ++ newfns = [] := by
+      simp only [Patch.isEmpty, nextPatch, Bool.and_eq_true, List.isEmpty_iff] at hemp
+      exact hemp.2
+    rw [e, hf]
     exact ⟨rfl, Or.inl ⟨o, ho, rfl, rfl⟩⟩
-  | cons f fs =>
-    have e : cycle sub mem [] newfns o Env.quiet s =
-        (patchObj sub ⟨[], f :: fs⟩ o Env.quiet s,
-         memoryAfter false mem (patchObj sub ⟨[], f :: fs⟩ o Env.quiet s).outcome) := by
-      simp [cycle, cycleOf, nextPatch, Patch.isEmpty, hfns]
+  · have e : cycle sub mem fields newfns o Env.quiet s =
+        (patchObj sub (nextPatch mem fields newfns) o Env.quiet s,
+         memoryAfter false mem (patchObj sub (nextPatch mem fields newfns) o Env.quiet s).outcome) := by
+      simp [cycle, cycleOf, hemp]
     rw [e]
-    obtain ⟨hh, hout⟩ := quiet_fns_cycle sub (f :: fs) o s ho
+    obtain ⟨hh, hout⟩ := quiet_call sub (nextPatch mem fields newfns) o s ho hns
     unfold patchObj
     constructor
     · rcases hout with ⟨st, e'⟩ | ⟨st, e'⟩ <;> rw [e'] <;> rfl
@@ -388,10 +311,135 @@ theorem carry_forward (sub : Bool) (mem : Option (List Fn)) (newfns : List Fn) (
       · exact Or.inr ⟨hn, hm, hl⟩
 
 -- non-vacuity: the server holds an object (with a foreign finalizer); a handler's finalizer edit is
--- carried and applied once, next to the framework's fresh decision
+-- carried and applied once, next to the framework's fresh decision and the cycle's dict content
 example : (⟨7, 1, some ⟨1, 7, false, ["other"], []⟩⟩ : Server).obj = some ⟨1, 7, false, ["other"], []⟩ := rfl
-example : ((cycle true (some [.userFin true "u"]) [] [.block "kopf"] ⟨1, 7, false, ["other"], []⟩ Env.quiet
+example : ((cycle true (some [.userFin true "u"]) [("status", obj [("p", num 1)]), ("metadata", obj [("annotations", obj [("a", str "1")])])]
+    [.block "kopf"] ⟨1, 7, false, ["other"], []⟩ Env.quiet
     ⟨7, 1, some ⟨1, 7, false, ["other"], []⟩⟩).1.server.obj.map (·.fins)) = some ["other", "u", "kopf"] := by decide
+
+/-- …and when the cycle works on a STALE body (the server has moved on since the event it processes) and
+    has no dict content to refresh its view with: the JSON-patch is refused again, NOTHING is written, and
+    the handler-supplied fns are carried once more — retried until a cycle sees the fresh state. -/
+theorem stale_view_conflicts_and_carries (sub : Bool) (ufns : List Fn) (orig o : Obj) (s : Server)
+    (hu : ∀ f ∈ ufns, f.isFramework = false)
+    (ho : s.obj = some o) (hstale : o.rv ≠ orig.rv)
+    (hch : finsChanged orig (applyFns ufns orig) = true) :
+    (cycle sub (some ufns) [] [] orig Env.quiet s).1.server = s ∧
+    (cycle sub (some ufns) [] [] orig Env.quiet s).2 = some ufns := by
+  have hne : ufns ≠ [] := by
+    intro e; subst e; simp [finsChanged, applyFns_nil] at hch
+  have hp : nextPatch (some ufns) [] [] = ⟨[], ufns⟩ := by simp [nextPatch]
+  have hemp : (nextPatch (some ufns) [] []).isEmpty = false := by
+    rw [hp]; cases ufns <;> simp_all [Patch.isEmpty]
+  have e : cycle sub (some ufns) [] [] orig Env.quiet s =
+      (patchObj sub ⟨[], ufns⟩ orig Env.quiet s,
+       memoryAfter false (some ufns) (patchObj sub ⟨[], ufns⟩ orig Env.quiet s).outcome) := by
+    rw [hp] at hemp
+    simp [cycle, cycleOf, hp, hemp]
+  rw [e]
+  have hm0 : stageMerge sub ⟨[], ufns⟩ Env.quiet ⟨s, [], none⟩ = .ok ⟨s, [], none⟩ := by
+    unfold stageMerge stageMergeBody stageMergeStatus bodyPart statusPart
+    cases sub <;> simp [erase, lookup] <;> rfl
+  obtain ⟨_, hconf⟩ := fns_atomic sub ⟨[], ufns⟩ orig Env.quiet ⟨s, [], none⟩ hch rfl o (by rw [slipped_quiet]; exact ho)
+  obtain ⟨st', _, _, _, hfin⟩ := hconf hstale
+  have hpo : patchObj sub ⟨[], ufns⟩ orig Env.quiet s =
+      finish ⟨[], ufns⟩ (stageJsonBody sub ⟨[], ufns⟩ orig Env.quiet ⟨s, [], none⟩ >>=
+        stageJsonStatus sub ⟨[], ufns⟩ orig orig Env.quiet) := by
+    unfold patchObj
+    rw [hm0]
+    rfl
+  rw [hpo]
+  obtain ⟨h1, h2⟩ := hfin (stageJsonStatus sub ⟨[], ufns⟩ orig orig Env.quiet)
+  refine ⟨by rw [h2, slipped_quiet], ?_⟩
+  rw [h1]
+  simp only [memoryAfter, Bool.false_eq_true, if_false, carried]
+  have hfil : ufns.filter (fun f => !f.isFramework) = ufns := by
+    rw [List.filter_eq_self]
+    intro f hf; simp [hu f hf]
+  rw [hfil]
+  cases ufns with
+  | nil => exact absurd rfl hne
+  | cons f fs => simp
+
+-- non-vacuity: the event body is at version 5, the server at 6; the handler's finalizer is carried again
+example :
+    let orig : Obj := ⟨1, 5, false, [], []⟩
+    finsChanged orig (applyFns [.userFin true "u"] orig) = true ∧ (6 : Nat) ≠ orig.rv := by decide
+
+/-- After an accepted call (or a vanished object) the memory is empty: whatever was carried has now been
+    applied and is never applied again. -/
+theorem accepted_call_empties_memory (sub : Bool) (mem : Option (List Fn)) (c : CycleIn) (s : Server)
+    (h : (cycle sub mem c.fields c.fns c.orig c.env s).1.outcome.accepted = true) :
+    (cycle sub mem c.fields c.fns c.orig c.env s).2 = none := by
+  unfold cycle cycleOf at h ⊢
+  simp only at h ⊢
+  split
+  · rfl
+  · rename_i hne
+    rw [if_neg hne] at h
+    simp only at h ⊢
+    cases ho : (patchObj sub (nextPatch mem c.fields c.fns) c.orig c.env s).outcome with
+    | ok rem b =>
+      rw [ho] at h
+      cases rem with
+      | none => simp [memoryAfter, carried]
+      | some r => simp [Outcome.accepted] at h
+    | gone => rfl
+    | raised => rw [ho] at h; simp [Outcome.accepted] at h
+
+/-- Not lost: a handler-supplied fn that is in the memory stays there through ANY run of cycles whose
+    calls are all refused or fail — whatever these cycles add, whatever the others write, whatever is
+    injected — and is therefore part of every one of their patches (`nextPatch`) up to and including the
+    first accepted call, which applies it (`fns_atomic`) and empties the memory
+    (`accepted_call_empties_memory`): applied in exactly one accepted call. -/
+theorem carried_until_accepted (sub : Bool) (f : Fn) (hf : f.isFramework = false) :
+    ∀ (cs : List CycleIn) (mem : Option (List Fn)) (s : Server),
+      f ∈ mem.getD [] → allRefused sub mem s cs = true → f ∈ ((run sub mem s cs).1).getD [] := by
+  intro cs
+  induction cs with
+  | nil => intro mem s hm _; exact hm
+  | cons c cs ih =>
+    intro mem s hm hall
+    simp only [allRefused, Bool.and_eq_true, Bool.not_eq_true'] at hall
+    simp only [run]
+    apply ih _ _ _ hall.2
+    -- one refused cycle keeps it
+    have hacc := hall.1
+    have hmem : f ∈ (nextPatch mem c.fields c.fns).fns := by
+      simp only [nextPatch, List.mem_append]; exact Or.inl hm
+    have hne : (nextPatch mem c.fields c.fns).isEmpty = false := by
+      cases hfs : (nextPatch mem c.fields c.fns).fns with
+      | nil => rw [hfs] at hmem; cases hmem
+      | cons x xs => simp [Patch.isEmpty, hfs]
+    unfold cycle cycleOf at hacc ⊢
+    simp only [hne, Bool.false_eq_true, if_false] at hacc ⊢
+    cases ho : (patchObj sub (nextPatch mem c.fields c.fns) c.orig c.env s).outcome with
+    | ok rem b =>
+      rw [ho] at hacc
+      cases rem with
+      | none => simp [Outcome.accepted] at hacc
+      | some r =>
+        have hr := (remaining_only_after_refusal sub _ c.orig c.env s r b ho).1
+        simp only [memoryAfter, Bool.false_eq_true, if_false, carried]
+        have hin : f ∈ r.filter (fun g => !g.isFramework) := by
+          rw [hr]; simp [List.mem_filter, hmem, hf]
+        split
+        · rename_i he
+          rw [List.isEmpty_iff] at he
+          rw [he] at hin; cases hin
+        · exact hin
+    | gone => rw [ho] at hacc; simp [Outcome.accepted] at hacc
+    | raised => simpa [memoryAfter] using hm
+
+-- non-vacuity: two refused cycles (a conflict through a foreign edit, then an injected 409 on the retry)
+example :
+    let o : Obj := ⟨1, 5, false, [], []⟩
+    let c1 : CycleIn := ⟨[], [.userFin true "u"], o,
+      { slips := fun k => if k = .jsonBody then [.edit [("spec", num 1)]] else [], faults := fun _ => .none }⟩
+    let c2 : CycleIn := ⟨[], [], ⟨1, 6, false, [], [("spec", num 1)]⟩,
+      { slips := fun _ => [], faults := fun k => if k = .jsonBody then .error 409 else .none }⟩
+    allRefused true none ⟨5, 1, some o⟩ [c1, c2] = true ∧
+    ((run true none ⟨5, 1, some o⟩ [c1, c2]).1.getD []).length = 1 := by decide
 
 /-- The framework's finalizer edit after a conflict is RE-DECIDED, not re-applied. Relative to any
     decision function `decide` (C06's decision block: the framework fns it queues for a body): whatever
@@ -400,7 +448,8 @@ example : ((cycle true (some [.userFin true "u"]) [] [.block "kopf"] ⟨1, 7, fa
     `decide o` (the decision on the FRESH state) on the then-fresh finalizer list: the outdated decision
     is neither written later nor lost, the current one is applied once. -/
 theorem finalizer_redecided (decide : Obj → List Fn) (hd : ∀ b, ∀ f ∈ decide b, f.isFramework = true)
-    (sub : Bool) (fields : Kvs) (o₁ : Obj) (env : Env) (s₁ : Server) (o : Obj) (s : Server) (ho : s.obj = some o) :
+    (sub : Bool) (fields : Kvs) (o₁ : Obj) (env : Env) (s₁ : Server) (o : Obj) (s : Server) (ho : s.obj = some o)
+    (hns : ¬ (o.marked = true ∧ o.fins = [])) :
     (cycle sub none fields (decide o₁) o₁ env s₁).2 = none ∧
     (cycle sub none [] (decide o) o Env.quiet s).2 = none ∧
     ((∃ o', (cycle sub none [] (decide o) o Env.quiet s).1.server.obj = some o' ∧ o'.uid = o.uid ∧
@@ -437,31 +486,52 @@ theorem finalizer_redecided (decide : Obj → List Fn) (hd : ∀ b, ∀ f ∈ de
               simp [hd o₁ f hf]
         · cases hc
         · cases hc
-  · simpa using carry_forward sub none (decide o) o s ho
+  · simpa using carry_forward sub none [] (decide o) o s ho hns
 
-/-- With nothing remaining and nothing new the next cycle sends nothing: the effect is not repeated. -/
-theorem carry_forward_not_repeated (sub : Bool) (orig : Obj) (env : Env) (s : Server) :
-    cycle sub none [] [] orig env s = (⟨[], s, .ok none none⟩, none) ∧
-    daemonCycle sub none [] [] orig env s = (⟨[], s, .ok none none⟩, none) := by
-  simp [cycle, daemonCycle, cycleOf, nextPatch, Patch.isEmpty]
+/-
+  NOT DUPLICATED — FULL STATEMENT (false of the code, see `reapplied_after_status_conflict_witness`):
+    "along any run, what the fns leave on the finalizer list is exactly ONE application of them, to the
+     state on which their JSON-patch was accepted".
+  It holds whenever the refusal hits the body JSON-patch (third request) or earlier: then nothing of the
+  computation is written (`fns_atomic`, `stale_view_conflicts_and_carries`) and the accepted call applies
+  the fns once (`carry_forward`). It fails when the body JSON-patch is accepted and the STATUS JSON-patch
+  (fourth request) is refused: `patch_obj` cannot tell body fns from status fns, returns ALL of them, and
+  the next cycle applies the body fns a second time. Only handler-supplied fns are concerned (the
+  framework's own are not carried), and docs/patches.rst demands of them exactly what makes this
+  harmless: "The transformation functions may be called more than once … should therefore be safe to
+  call repeatedly: they should check the current state before making changes." For such state-checking
+  fns (all fns of the model are) re-application never changes WHICH finalizers are there
+  (`not_duplicated_partial`); it may change their order. Not recorded as a defect: documented contract.
+-/
 
-/-- The conflict may also hit AFTER the body JSON-patch was accepted (on the status JSON-patch): then
-    the carried fns (the handler-supplied ones in `process_resource_event`, all of them in daemons and
-    timers) are applied again in the next cycle. For the finalizer list this re-application is harmless:
-    membership after applying the fns twice is membership after applying them once… -/
-theorem reapply_membership (fns : List Fn) (o : Obj) (x : String) :
+/-- NOT DUPLICATED, the part that holds: re-applying the whole list of (state-checking) fns on top of
+    their own result never changes which finalizers are present — none is added twice, none is lost. -/
+theorem not_duplicated_partial (fns : List Fn) (o : Obj) (x : String) :
     x ∈ (applyFns fns (applyFns fns o)).fins ↔ x ∈ (applyFns fns o).fins := by
   rw [mem_applyFns x fns (applyFns fns o), mem_applyFns x fns o]
   cases lastOp x fns <;> simp
 
-/-- …but the ORDER may change when one list mixes a remove-and-re-add with another addition
-    (order-level idempotence holds for each single function, `block_idem`/`allow_idem`, which is
-    all that kopf itself ever queues). -/
-theorem reapply_order_witness :
-    ∃ (fns : List Fn) (o : Obj),
-      (applyFns fns (applyFns fns o)).fins ≠ (applyFns fns o).fins := by
-  refine ⟨[.userFin false "f", .userFin true "f", .userFin true "g"], ⟨1, 1, false, [], []⟩, ?_⟩
-  decide
+/-- The negation of the full statement, on a real run: body JSON-patch accepted (`["f", "g"]` is on the
+    server), a foreign edit slips in before the status JSON-patch, 422, ALL fns remain; the next, quiet
+    cycle applies them again and leaves `["g", "f"]` — not what one application left. Replayed on the
+    real code by the check (corpus/C08/reapply_after_status_conflict.json). -/
+theorem reapplied_after_status_conflict_witness :
+    ∃ (fns : List Fn) (o : Obj) (s : Server) (env : Env),
+      s.obj = some o ∧ (∀ f ∈ fns, f.isFramework = false) ∧
+      -- first cycle: third request accepted, fourth refused
+      ((cycle true none [] fns o env s).1.reqs.map (fun r => (r.kind, r.code))
+          = [(.jsonBody, 200), (.jsonStatus, 422)]) ∧
+      ((cycle true none [] fns o env s).1.server.obj.map (·.fins)) = some (applyFns fns o).fins ∧
+      (cycle true none [] fns o env s).2 = some fns ∧
+      -- second cycle on the fresh object: everything accepted, the list is another one now
+      ∃ o₂, (cycle true none [] fns o env s).1.server.obj = some o₂ ∧
+        ((cycle true (some fns) [] [] o₂ Env.quiet (cycle true none [] fns o env s).1.server).1.server.obj.map (·.fins))
+          = some ["g", "f"] ∧ (applyFns fns o).fins = ["f", "g"] := by
+  refine ⟨[.userFin false "f", .userFin true "f", .userFin true "g", .setStatus "k" (num 1)],
+          ⟨1, 5, false, [], []⟩, ⟨5, 1, some ⟨1, 5, false, [], []⟩⟩,
+          { slips := fun k => if k = .jsonStatus then [.edit [("spec", num 1)]] else [], faults := fun _ => .none },
+          rfl, by decide, by decide, by decide, by rfl,
+          ⟨1, 7, false, ["f", "g"], [("spec", num 1)]⟩, by rfl, by decide, by decide⟩
 
 /-! ## a vanished object ends the patching silently -/
 
@@ -479,10 +549,13 @@ theorem silent_404 (sub : Bool) (p : Patch) (orig : Obj) (env : Env) (s : Server
   rw [this]
   rfl
 
-/-- The only way out by exception is a 422 on a merge-patch. -/
-theorem raised_only_on_merge_422 (sub : Bool) (p : Patch) (orig : Obj) (env : Env) (s : Server)
+/-- The only way out by exception is an API error other than the two the call handles itself: the last
+    request was answered with a status that is neither a success, nor 404, nor a 422 on a JSON-patch
+    (a 422 on a merge-patch, 403, 409, a 5xx after the retries, …; those are C12's subject). -/
+theorem raised_only_on_api_error (sub : Bool) (p : Patch) (orig : Obj) (env : Env) (s : Server)
     (h : (patchObj sub p orig env s).outcome = .raised) :
-    ∃ r, (patchObj sub p orig env s).reqs.getLast? = some r ∧ r.kind.isJson = false ∧ r.code ≠ 200 ∧ r.code ≠ 404 := by
+    ∃ r, (patchObj sub p orig env s).reqs.getLast? = some r ∧ r.code ≠ 200 ∧ r.code ≠ 404 ∧
+      ¬ (r.code = 422 ∧ r.kind.isJson = true) := by
   unfold patchObj at h ⊢
   rcases good_inv (good_patch sub p orig env s) with ⟨st, e, _⟩ | ⟨st, pre, r, e, h1, _, h3⟩
   · rw [e] at h; simp [finish] at h
@@ -492,9 +565,16 @@ theorem raised_only_on_merge_422 (sub : Bool) (p : Patch) (orig : Obj) (env : En
     unfold stopOf at h
     by_cases h404 : r.code = 404
     · simp [h404, finish] at h
-    · by_cases hj : r.kind.isJson = true
-      · simp [h404, hj, finish] at h
-      · exact ⟨r, by simp, by simpa using hj, h3, h404⟩
+    · by_cases hj : r.code = 422 ∧ r.kind.isJson = true
+      · rw [if_neg h404, if_pos hj] at h
+        simp [finish] at h
+      · exact ⟨r, by simp, h3, h404, hj⟩
+
+-- non-vacuity: an injected 409 on the status merge-patch (after a foreign edit and a finalizer edit slipped in)
+example :
+    (patchObj true ⟨[("status", obj [("a", num 1)])], []⟩ ⟨1, 5, false, [], []⟩
+      { slips := fun _ => [.edit [("spec", num 1)], .setFins ["x"]], faults := fun k => if k = .mergeStatus then .error 409 else .none }
+      ⟨5, 1, some ⟨1, 5, false, [], []⟩⟩).reqs.map (fun r => (r.kind, r.code)) = [(.mergeStatus, 409)] := by decide
 
 /-! ## same object -/
 
@@ -510,7 +590,7 @@ theorem raised_only_on_merge_422 (sub : Bool) (p : Patch) (orig : Obj) (env : En
     during the call (any other foreign write is allowed: edits, finalizer edits, deletion). -/
 theorem same_object_partial (sub : Bool) (p : Patch) (orig : Obj) (env : Env) (s : Server)
     (h0 : ∀ o, s.obj = some o → o.uid = orig.uid)
-    (hw : ∀ k b, env.slips k ≠ some (.recreate b)) :
+    (hw : ∀ k w, w ∈ env.slips k → ∀ b, w ≠ .recreate b) :
     ∀ r ∈ (patchObj sub p orig env s).reqs, ∀ u, r.target = some u → u = orig.uid := by
   intro r hr u hu
   unfold patchObj at hr
@@ -522,9 +602,10 @@ theorem same_object_partial (sub : Bool) (p : Patch) (orig : Obj) (env : Env) (s
   exact h.2 r hr u hu
 
 -- non-vacuity: an environment with foreign edits and a deletion but no recreation
-example : ∀ k b, ({ slips := fun k => if k = .jsonBody then some .delete else some (.edit []), faults := fun _ => .none } : Env).slips k
-    ≠ some (.recreate b) := by
-  intro k b; cases k <;> simp
+example : ∀ k w, w ∈ ({ slips := fun k => if k = .jsonBody then [.delete] else [.edit [], .setFins ["x"]],
+                         faults := fun _ => .none } : Env).slips k → ∀ b, w ≠ .recreate b := by
+  intro k w hw b
+  cases k <;> simp at hw <;> rcases hw with rfl | rfl <;> simp
 
 /-- The negation of the full statement: the object is deleted and recreated under the same name
     right before the status merge-patch of a cycle computed for uid 1. The status lands on uid 2 — and
@@ -539,7 +620,7 @@ theorem name_reuse_witness :
   ⟨true, ⟨[("metadata", obj [("annotations", obj [("progress", str "done")])]), ("status", obj [("result", num 1)])],
           [.block "kopf"]⟩,
    ⟨1, 5, false, [], [("spec", obj [("x", num 0)])]⟩,
-   { slips := fun k => if k = .mergeStatus then some (.recreate [("spec", obj [("x", num 1)])]) else none,
+   { slips := fun k => if k = .mergeStatus then [.recreate [("spec", obj [("x", num 1)])]] else [],
      faults := fun _ => .none },
    ⟨5, 1, some ⟨1, 5, false, [], [("spec", obj [("x", num 0)])]⟩⟩,
    rfl, by decide⟩
